@@ -28,11 +28,18 @@ _FLOAT_PRIMS = ["float", "add", "sub", "mul", "div", "abs", "opp", "sqrt", "eqb"
 _INT_PRIMS = ["int", "add", "sub", "mul", "lsl", "lsr", "land", "lor", "lxor", "eqb", "ltb", "leb", "div", "mod", "head0", "tail0"]
 ALLOWED_AXIOMS = (set(_FLOAT_PRIMS) | {"PrimFloat." + n for n in _FLOAT_PRIMS}
                   | {"PrimInt63." + n for n in _INT_PRIMS} | {"Uint63." + n for n in _INT_PRIMS} | {"lsl", "lsr", "land", "lor", "int"})
+# C19_isclose_real_band only: the FloatAxioms specifications of the kernel float primitives (what Flocq.IEEE754.PrimFloat rests on),
+# the axioms of the classical real numbers, and excluded middle as used by Flocq.
+_SPECS = ["Prim2SF_SF2Prim", "Prim2SF_valid", "SF2Prim_Prim2SF", "abs_spec", "add_spec", "sub_spec", "mul_spec", "eqb_spec", "leb_spec",
+          "ltb_spec", "opp_spec", "sqrt_spec"]
+ALLOWED_AXIOMS |= set(_SPECS) | {"FloatAxioms." + n for n in _SPECS} | {
+    "ClassicalDedekindReals.sig_forall_dec", "ClassicalDedekindReals.sig_not_dec",
+    "FunctionalExtensionality.functional_extensionality_dep", "Classical_Prop.classic"}
 EXTRA_TARGETS = ["Model/Compare.vo"]
 
 logging.getLogger().addHandler(logging.NullHandler())   # quiet=False logs; keep stderr clean
 
-EXC = {"ValueError": "EValue", "TypeError": "EType", "AttributeError": "EAttribute", "OverflowError": "EOverflow"}
+EXC = {"ValueError": "EValue", "TypeError": "EType", "AttributeError": "EAttribute", "OverflowError": "EOverflow", "KeyError": "EKey"}
 
 
 def translate(ctx):
@@ -197,11 +204,11 @@ def q_to_coq(q):
             cf(o["atol"]), cf(o["rtol"]), cbool(o["equal_nan"]), cbool(o["equal_phase"]), cbool(o["passnone"]), e, c))
     if q["fn"] == "compare":
         return f"(QCompare {cbool(o['equal_phase'])} {e} {c})"
-    if q["fn"] == "rec":
+    if q["fn"] in ("rec", "mol"):
         ep = o["equal_phase"]
         eps = f"(EpBool {cbool(ep)})" if isinstance(ep, bool) else "(EpList " + clist(ep, cstr) + ")"
-        return ("(QRec {| r_atol := %s; r_rtol := %s; forgive := %s; r_phase := %s |} %s %s)" % (
-            cf(o["atol"]), cf(o["rtol"]), clist(o["forgive"] or [], cstr), eps, e, c))
+        return ("(%s {| r_atol := %s; r_rtol := %s; forgive := %s; r_phase := %s |} %s %s)" % (
+            "QRec" if q["fn"] == "rec" else "QMol", cf(o["atol"]), cf(o["rtol"]), clist(o["forgive"] or [], cstr), eps, e, c))
     raise ValueError(q["fn"])
 
 
@@ -234,7 +241,7 @@ VARIANTS = [(True, False, None), (False, False, None), (True, True, None), (Fals
 
 def impl_run(q, variant=VARIANTS[0]):
     """-> ("Ok", bool) | ("Raise", E...) | ("Bad", description)"""
-    from qcelemental.testing import compare, compare_recursive, compare_values
+    from qcelemental.testing import compare, compare_molrecs, compare_recursive, compare_values
     quiet, rm, hk = variant
     kw = {"quiet": quiet, "return_message": rm}
     cap = []
@@ -253,6 +260,14 @@ def impl_run(q, variant=VARIANTS[0]):
                                        equal_phase=o["equal_phase"], passnone=o["passnone"], **kw)
                 elif q["fn"] == "compare":
                     r = compare(e, c, "lbl", equal_phase=o["equal_phase"], **kw)
+                elif q["fn"] == "mol":
+                    e0, c0 = repr(e), repr(c)
+                    mk = dict(kw)
+                    mk["verbose"] = 0 if mk.pop("quiet") else 1
+                    r = compare_molrecs(e, c, "lbl", atol=hf(o["atol"]), rtol=hf(o["rtol"]),
+                                        forgive=(None if o["forgive"] is None else list(o["forgive"])), **mk)
+                    if repr(e) != e0 or repr(c) != c0:
+                        return ("Bad", "compare_molrecs modified its inputs")
                 else:
                     ep = o["equal_phase"]
                     rk = dict(atol=hf(o["atol"]), rtol=hf(o["rtol"]), forgive=(None if o["forgive"] is None else list(o["forgive"])),
@@ -328,14 +343,19 @@ def close_real(c, e, atol, rtol, eqnan):
     if math.isinf(c) or math.isinf(e):
         return c == e
     verdict = abs(c - e) <= atol + rtol * abs(e)
-    # sanity band in exact arithmetic: binary64 evaluation may differ from the real-number rule only within rounding
-    d = abs(Fraction(c) - Fraction(e))
-    T = Fraction(atol) + Fraction(rtol) * abs(Fraction(e))
-    eps = Fraction(1, 2 ** 48)
-    if d <= T * (1 - eps) and not verdict:
-        raise AssertionError("oracle: binary64 rule rejects a value well inside the tolerance")
-    if d >= T * (1 + eps) and verdict and math.isfinite(atol + rtol * abs(e)):
-        raise AssertionError("oracle: binary64 rule accepts a value well outside the tolerance")
+    # the band proved in Coq (C19_isclose_real_band), re-checked in exact arithmetic on every case it applies to:
+    # true => |c-e| <= (T + 2^-1075)(1 + 2^-51);  false => |c-e| >= (T - 2^-1074)(1 - 2^-51)
+    if atol >= 0 and rtol >= 0 and math.isfinite(c - e) and math.isfinite(rtol * abs(e)) and math.isfinite(atol + rtol * abs(e)):
+        d = abs(Fraction(c) - Fraction(e))
+        T = Fraction(atol) + Fraction(rtol) * abs(Fraction(e))
+        eps, eta = Fraction(1, 2 ** 51), Fraction(1, 2 ** 1075)
+        _stat("real_band_checked")
+        if verdict and not d <= (T + eta) * (1 + eps):
+            raise AssertionError("oracle: binary64 rule accepts a value outside the proved band")
+        if not verdict and not d >= (T - 2 * eta) * (1 - eps):
+            raise AssertionError("oracle: binary64 rule rejects a value inside the proved band")
+        if verdict != (d <= T):
+            _stat("real_band_verdict_differs_from_exact_rule")
     return verdict
 
 
@@ -364,7 +384,10 @@ def close_cplx(c, e, atol, rtol, eqnan):
         return d <= atol + rtol * float(me)
     d2 = (Fraction(c.real) - Fraction(e.real)) ** 2 + (Fraction(c.imag) - Fraction(e.imag)) ** 2
     T = Fraction(atol) + Fraction(rtol) * me
-    eps = Fraction(1, 2 ** 36)
+    # |z| by C hypot (< 1 ulp) and by sqrt(re^2+im^2) (the model; < 2 ulp away from over/underflow of the squares), the
+    # subtraction parts, rtol*|e| and the sum are each within 2^-52 relative: the two evaluations and the exact rule
+    # agree unless |d - T| <= 2^-48 T.  Judged outside 2^-46.
+    eps = Fraction(1, 2 ** 46)
     if d2 <= (T * (1 - eps)) ** 2:
         return True
     if d2 >= (T * (1 + eps)) ** 2:
@@ -592,6 +615,42 @@ def _stat(k):
     ORACLE_STATS[k] = ORACLE_STATS.get(k, 0) + 1
 
 
+def spec_massage(t):
+    """the normalisation compare_molrecs promises (str files, int separators, version dropped, bonds as (min, max, order)
+    in first-atom order), written independently on abstract trees"""
+    if t[0] != "dict":
+        raise Abstain("record is not a dict")
+    out = []
+    for k, v in t[1]:
+        if k == "fragment_files":
+            if v[0] != "list" or any(x[0] != "sc" or x[2] != "str" for x in v[2]):
+                raise Abstain("fragment_files")
+            v = L([S(x[3]) for x in v[2]])
+        elif k == "fragment_separators":
+            items = v[2] if v[0] == "list" else [["sc", True] + list(x) for x in v[3]] if (v[0] == "arr" and v[1] == "int" and len(v[2]) == 1) else None
+            if items is None or any(x[0] != "sc" or x[2] not in ("none", "int", "bool") for x in items):
+                raise Abstain("fragment_separators")
+            v = L([NONE if x[2] == "none" else I(int(x[3])) for x in items])
+        elif k == "provenance":
+            if v[0] != "dict" or "version" not in [kk for kk, _ in v[1]]:
+                raise Abstain("provenance without version")
+            v = D([(kk, vv) for kk, vv in v[1] if kk != "version"])
+        elif k == "connectivity":
+            if v[0] != "list":
+                raise Abstain("connectivity")
+            bonds = []
+            for b in v[2]:
+                if b[0] != "list" or len(b[2]) != 3 or any(x[0] != "sc" or x[2] != "int" for x in b[2][:2]):
+                    raise Abstain("bond")
+                a1, a2, bo = b[2]
+                lo, hi = (a1, a2) if a1[3] < a2[3] else (a2, a1) if a2[3] < a1[3] else (a1, a1)
+                bonds.append(L([lo, hi, bo], tup=True))
+            bonds.sort(key=lambda b: b[2][0][3])
+            v = L(bonds)
+        out.append((k, v))
+    return D(out)
+
+
 def oracle(q, out):
     """None (fine / abstained) or a dict describing the violation."""
     try:
@@ -600,6 +659,9 @@ def oracle(q, out):
             want, tag = spec_values(q["e"], q["c"], hf(o["atol"]), hf(o["rtol"]), o["equal_nan"], o["equal_phase"], o["passnone"])
         elif q["fn"] == "compare":
             want, tag = spec_compare(q["e"], q["c"], q["o"]["equal_phase"])
+        elif q["fn"] == "mol":
+            want, tag = spec_rec({"o": q["o"], "e": spec_massage(q["e"]), "c": spec_massage(q["c"])})
+            tag = sorted(tag)
         else:
             want, tag = spec_rec(q)
             tag = sorted(tag)
@@ -827,7 +889,7 @@ def gen_complex(ctx, n_per):
         for rtol in RTOLS[::2]:
             for ref in gen_refs:
                 T = atol + rtol * abs(ref)
-                for fac in (0.0, 0.5, 0.999, 1.001, 2.0, 1e3):
+                for fac in (0.0, 0.5, 0.999, 1.001, 2.0, 1e3, 1 - 2.0 ** -40, 1 + 2.0 ** -40, 1 - 2.0 ** -44, 1 + 2.0 ** -44):
                     th = rng.random() * 6.28
                     cval = ref + fac * T * complex(math.cos(th), math.sin(th))
                     shape = rng.choice([(1,), (2,), (2, 2)])
@@ -1245,6 +1307,67 @@ def gen_confusion(ctx, reps):
     return out
 
 
+def gen_molrecs(ctx, n):
+    """molecule records through compare_molrecs: version / bond direction / separator types vary freely; geometry, charge,
+    creator, bond order, keys are perturbed"""
+    rng = ctx.rng
+    out = []
+    for _ in range(n):
+        atol = rng.choice([1e-9, 1e-6, 1e-6, 1e-3])
+        rtol = rng.choice([1e-16, 1e-8])
+        g = TreeGen(rng, atol, rtol)
+        nat = rng.choice([2, 3, 4])
+        geom = [rng.choice([0.0, 1.4, -0.4, 1.2, 2.5, -3.1]) for _ in range(3 * nat)]
+        bonds = [(i, j) for i in range(nat) for j in range(i + 1, nat) if rng.random() < 0.6]
+        bos = {b: rng.choice([1.0, 2.0, 1.5]) for b in bonds}
+
+        def record(ver, flip, septype, geomv, extra):
+            bl = list(bonds)
+            if flip == "perm":
+                rng.shuffle(bl)
+            conn = L([L(([I(j), I(i)] if (flip == "dir" and rng.random() < 0.5) else [I(i, np_=rng.random() < 0.2), I(j)]) + [F(bos[(i, j)])],
+                        tup=rng.random() < 0.7) for i, j in bl])
+            sep = {"arr": A("int", (1,), [I(1)[2:]]), "np": L([I(1, np_=True)]), "py": L([I(1)]), "none": L([NONE]), "empty": L([])}[septype]
+            pairs = [("geom", A("float", (3 * nat,), [F(v)[2:] for v in geomv])),
+                     ("elem", A("str", (nat,), [S(rng.choice(["H", "O", "C"]))[2:] for _ in range(nat)])),
+                     ("fragment_separators", sep), ("fragment_files", L([S(w) for w in rng.sample(["a.xyz", "b.xyz"], rng.choice([0, 1, 2]))])),
+                     ("fix_com", B(True)), ("molecular_charge", F(0.0)), ("units", S("Bohr")),
+                     ("provenance", D([("creator", S("QCElemental")), ("version", S(ver)), ("routine", S("x"))])),
+                     ("connectivity", conn)]
+            return pairs + extra
+        e_pairs = record("v0.1", "none", rng.choice(["arr", "np", "py"]), geom, [])
+        geomc = list(geom)
+        r = rng.random()
+        flip = rng.choice(["none", "dir", "dir", "perm"])
+        septype = rng.choice(["arr", "np", "py", "py", "none", "empty"] if rng.random() < 0.3 else ["arr", "np", "py"])
+        extra = []
+        if r < 0.35:
+            p = rng.randrange(len(geomc))
+            geomc[p] = g.perturb_f(geomc[p])
+        elif r < 0.45:
+            extra = [("comment", S("abc"))]
+        c_pairs = record(rng.choice(["v0.1", "v9.9+3"]), flip, septype, geomc, extra)
+        # keep the elem array identical, then perturb single fields
+        c_pairs[1] = e_pairs[1]
+        c_pairs[3] = e_pairs[3] if rng.random() < 0.8 else c_pairs[3]
+        if 0.45 <= r < 0.52:
+            c_pairs[5] = ("molecular_charge", F(1.0))
+        elif 0.52 <= r < 0.58:
+            c_pairs[7] = ("provenance", D([("creator", S("other")), ("version", S("v0.1")), ("routine", S("x"))]))
+        elif 0.58 <= r < 0.62:
+            c_pairs[7] = ("provenance", D([("creator", S("QCElemental")), ("routine", S("x"))]))       # KeyError (modelled)
+        elif 0.62 <= r < 0.68 and bonds:
+            c_pairs[8] = ("connectivity", L(c_pairs[8][1][2][:-1]))
+        elif 0.68 <= r < 0.72:
+            c_pairs = [x for x in c_pairs if x[0] != "units"]
+        e, c = D(e_pairs), D(c_pairs)
+        paths = list(node_paths(e))
+        forgive = None if rng.random() < 0.5 else entries_from(rng, paths, rng.choice([1, 2])) if rng.random() < 0.5 else \
+            [rng.choice(["geom", "connectivity", "provenance", "geo", "fragment_separators", "molecular_charge", "units", "comment"])]
+        out.append(("molrecs-model", {"fn": "mol", "o": opts_r(atol=atol, rtol=rtol, forgive=forgive, equal_phase=False), "e": e, "c": c}))
+    return out
+
+
 def corpus():
     """old failing inputs (fixed defects must stay fixed), the known findings, docstring-like cases"""
     cs = []
@@ -1314,6 +1437,7 @@ def case_batches(ctx):
     first += gen_complex(ctx, 4 if big else 1)
     first += gen_compare(ctx, 12000 if big else 1200)
     first += gen_confusion(ctx, 4 if big else 1)
+    first += gen_molrecs(ctx, 8000 if big else 700)
     if big:
         yield first
         first = []
@@ -1547,10 +1671,11 @@ TRUSTED = [
     "PrimFloat kernel primitives = IEEE-754 binary64 as used by CPython/numpy (add, sub, mul, abs, leb, eqb, sqrt, of_uint63)",
     "numpy array construction (shape discovery, dtype inference, casting), elementwise ==, unary minus and np.isclose's formula are "
     "modelled, not verified; complex |z| is modelled as sqrt(re^2+im^2) (C hypot may differ by an ulp: complex correspondence cases "
-    "are axis-aligned at the edge or kept 2^-36 away from it)",
+    "are axis-aligned at the edge (exact) or judged when at least 2^-46 (relative) away from it; generated down to 2^-44)",
     "message texts are not modelled (only which error names exist); sorted() in the forgive loops is modelled as list order",
-    "pydantic .dict() (ProtoModel.compare) and compare_molrecs' normalisation are exercised on the implementation only (oracle), "
-    "relative_geoms='align' is not covered",
+    "compare_molrecs' normalisation (massage_dicts) is modelled and compared through vm_compute (stream molrecs-model) for str "
+    "fragment_files, None/bool/int fragment_separators, dict provenance and integer-atom bonds; copy.deepcopy and pydantic .dict() "
+    "(ProtoModel.compare: a model is represented by the tree of its dict) are trusted; relative_geoms='align' is not covered",
     "the Python oracle (spec_values/spec_compare/spec_rec in this file)",
 ]
 ASSUMPTIONS = [
@@ -1564,7 +1689,11 @@ TECHNIQUE = ("Coq proof over a hand-written Gallina model with binary64 leaves a
 DESIGN_REF = "DESIGN.md §6 C19"
 LEVEL_TEXT = (
     "Machine-checked (Coq 8.16.1) theorems about Model/Compare.v, whose leaves are binary64 kernel floats and whose trees have any "
-    "depth and width: C19_compare_values_spec (True <-> passnone-both-None, or usable atol and both casts succeed with equal shape and "
+    "depth and width: C19_isclose_real_band (through Flocq's semantics of the primitive floats: for finite inputs, non-negative "
+    "tolerances and no intermediate overflow, the binary64 closeness test true implies |c-e| <= (T+2^-1075)(1+2^-51) and false implies "
+    "|c-e| >= (T-2^-1074)(1-2^-51) with T = atol+rtol*|e| over the reals), C19_modulus_model_error (the model's complex modulus "
+    "sqrt(re*re+im*im) in binary64 is within (1-2^-53)^2..(1+2^-53)^2 of the exact modulus when the squares neither underflow nor "
+    "overflow), C19_compare_values_spec (True <-> passnone-both-None, or usable atol and both casts succeed with equal shape and "
     "all elements close by numpy's binary64 formula, or all close against the negated computed data when equal_phase; real and complex), "
     "C19_compare_values_false_spec (the False verdict, exactly), C19_compare_values_total, C19_compare_values_raise_spec / "
     "C19_compare_values_raises_only (only an unusable atol raises; never a TypeError on a mismatch), C19_ragged_is_false (a ragged "
@@ -1577,7 +1706,10 @@ LEVEL_TEXT = (
     "flipped where selected), C19_no_false_pass, C19_no_false_fail, "
     "C19_recursive_raise_spec, C19_float_leaf_spec, C19_forgive_key_boundary / C19_forgive_by_segments / C19_forgiven_by_segments / "
     "C19_forgive_descends (entries select whole keys, never string prefixes), C19_options_inert / "
-    "C19_handler_receives_verdict, C19_bool_leaf_exact (bool and numpy.bool_ leaves are exact leaves). "
+    "C19_handler_receives_verdict, C19_bool_leaf_exact (bool and numpy.bool_ leaves are exact leaves), C19_molrecs_is_recursive "
+    "(compare_molrecs, exact mode, is compare_recursive on the normalised records), C19_molrecs_normalise_idempotent (files to str, "
+    "separators to int, version popped, bonds as (min, max, order) stably sorted on the first atom: normalising twice changes "
+    "nothing), C19_molrecs_version_forgiven, C19_molrecs_bond_orientation, C19_protomodel_compare. "
     "The model is tied to testing.py on every run by bit-exact differential execution through vm_compute (floats cross as hex "
     "literals): tolerance-edge perturbations built with nextafter over atol 1e-12..1e-1 x rtol x flags x dtypes x shapes 0-3d, "
     "non-finite values, uncastable/ragged inputs, complex data, exact comparison, nested structures of depth <= 4 with perturbed "
@@ -1587,15 +1719,18 @@ LEVEL_TEXT = (
 LEVEL_NOTE = (
     "Trusted: Coq kernel + vm_compute incl. its IEEE-754 binary64 primitives (listed by Print Assumptions as PrimFloat/PrimInt63 "
     "constants; no FloatAxioms, no declared axiom); the hand-written model; numpy's array construction / casting / == / unary minus "
-    "and np.isclose's formula are modelled, not verified. No theorem reasons about rounding: the closeness test appears in the "
-    "statements as numpy's formula evaluated in binary64 (what the code computes), not as the real-number inequality; the Python "
-    "oracle checks on every case that the two differ only within 2^-48 relative of the edge. Complex |z| is modelled as "
-    "sqrt(re^2+im^2) (exact when axis-aligned); complex cases off the axes are kept 2^-36 away from the edge. Outside the model "
+    "and np.isclose's formula are modelled, not verified. The structural theorems state the closeness test as numpy's formula "
+    "evaluated in binary64 (what the code computes); C19_isclose_real_band relates it to the real-number inequality (real data; it "
+    "rests on the FloatAxioms specifications of the kernel primitives, the classical-reals axioms and excluded middle, all "
+    "allow-listed) and the Python oracle re-checks that band in exact rational arithmetic on every real case it applies to. Complex |z| is modelled as "
+    "sqrt(re^2+im^2) (exact when axis-aligned); complex cases off the axes are generated down to 2^-44 (relative) from the edge and "
+    "judged when at least 2^-46 away (C hypot and the modelled formula are both within 2 ulp of |z|; not proved in Coq). Outside the model "
     "(answer Unmodelled, excluded by every statement): ints >= 2^53, numeric-looking strings handed to compare_values, ndarrays "
     "nested in lists, object arrays holding dicts, sets under a list, exact leaves against ndarrays, non-str keys. Message texts and "
     "sorted() order are not modelled (they do not influence the verdict: proved for the removal loops by a counting argument). "
     "equal_phase excuses a site when no error of the same NAME remains in the flipped run (as the code does); names are unique per "
-    "site when keys have no dots, which is assumed by the segment reading only. compare_molrecs (exact mode) and pydantic .dict() "
-    "are exercised on the implementation only; relative_geoms='align' is not covered. The only exceptions compare_values can "
+    "site when keys have no dots, which is assumed by the segment reading only. compare_molrecs is modelled in exact mode only "
+    "(relative_geoms='align' is not covered; bonds are sorted on the first atom only, as the code does, so two bonds sharing their "
+    "first atom listed in a different order compare unequal); pydantic .dict() is trusted. The only exceptions compare_values can "
     "raise are those of an unusable atol (<= 0, NaN, infinite), which is outside the property's quantifier (modelled; the oracle "
     "abstains).")
